@@ -13,7 +13,7 @@ import math
 import numpy as np
 
 from .. import circmon
-from ..gen import haar
+from ..gen import haar, pick_seed
 from .common import drain_into, merge_stats, setup
 
 PROPERTY = "C14"
@@ -23,7 +23,7 @@ RULE = ("seeded structured unitaries of size 2-10 (Haar, identity, -identity, pe
         "x seeds; distinct = (matrix family, size, error-model shape); non-trivial = every case (full post-condition)")
 MANDATORY = ["family:haar", "family:identity", "family:permutation", "family:phased_permutation", "family:block",
              "family:near_permutation", "family:dft", "family:orthogonal", "heralded_circuit", "theta_pi_branch",
-             "theta_zero_branch", "noisy_error_model", "seed_reproducibility", "phase_near_2pi"]
+             "theta_zero_branch", "noisy_error_model", "seed_reproducibility", "phase_near_2pi", "seed_zero_noisy"]
 DECIDING = ["mon.reck_postconditions", "mon.dist_value_checks"]
 BUDGET = {"quick": 20, "thorough": 300}
 ASSUMPTIONS = ["default error model: |U_mapped - U| <= 1e-8 x n entry-wise", "declared bounds of Gaussian = [min_value, "
@@ -261,7 +261,7 @@ def run(ctx):
             heralded = True
             ctx.bucket("heralded_circuit")
         noisy = bool(rng.random() < 0.4)
-        seed = int(rng.integers(1 << 30)) if rng.random() < 0.8 else None
+        seed = pick_seed(rng) if rng.random() < 0.8 else None
         if noisy:
             em, shape = make_error_model(lw, rng)
             ctx.bucket("noisy_error_model")
@@ -275,6 +275,8 @@ def run(ctx):
             res = reck.map(circ, seed=seed)
             if seed is not None:
                 ctx.bucket("seed_reproducibility")
+                if seed == 0 and noisy:
+                    ctx.bucket("seed_zero_noisy")
             phases = [s.phi for s in flat_spec(res._get_circuit_spec()) if type(s).__name__ == "PhaseShifter"]
             if any(p > 2 * math.pi - 1e-9 for p in phases):
                 ctx.bucket("phase_near_2pi")
